@@ -53,6 +53,13 @@ def oracle(toks, line):
         lib = LIBOF[sb]
         want = {("scale", "A"): 2 * v, ("scale", "B"): 3 * v, ("ident", "A"): v + 1000, ("ident", "B"): v + 2000}[(name, lib)]
         return line == f"ok {want}"
+    if toks[0] == "irecr":
+        l1, l2, name, v = int(toks[1]), int(toks[2]), toks[3], int(toks[4])
+        def one(l):
+            lib = "AB"[l]
+            val = {("scale", "A"): 2 * v, ("scale", "B"): 3 * v, ("ident", "A"): v + 1000, ("ident", "B"): v + 2000}[(name, lib)]
+            return f"{val} lib{lib}.{name} {val}"
+        return line == f"ok {one(l1)} | {one(l2)}"
     if toks[0] == "ifnaddr":
         sb, name = int(toks[1]), toks[2]
         lib = LIBOF[sb]
@@ -157,6 +164,11 @@ def run(chk):
             vals = {0, 1, glo, ghi, alo, ahi, alo - 1, ahi + 1, ahi + 5, (1 << 32) + 5, -(1 << 31) - 1, rng.randint(glo, ghi)}
             for v in sorted(x for x in vals if glo <= x <= ghi):
                 rops.append(f"invr {abi} {ty} {v}")
+    # the same sandbox object created, destroyed and created again with another library: by-name call and function address
+    for l1 in (0, 1):
+        for l2 in (0, 1):
+            for name in ("scale", "ident"):
+                ops.append(f"irecr {l1} {l2} {name} {rng.randrange(-1000, 1000)}")
     ops = rops + ["ifnaddr 0 scale", "inamed 0 scale 4", "ifnaddr 0 scale", "ifnaddr 1 ident", "inamed 1 ident 1", "inamed 2 ident 1"] + ops
     # the by-name ops share per-instance caches: keep them in one sequential chunk (the engine is stateless otherwise)
     res = core.differential(chk, ops, binp, oracle, label="invocations", stateless=False)
